@@ -274,6 +274,9 @@ class FunctionExtractor:
             self.rules.append('R5' if self.is_ctor else 'R5b')
         else:
             sig = self.render(fb, bb).rstrip()
+            if 'std::' in sig:
+                sig = sig.replace('std::', 'std__')      # R15: C++ stream types in a signature become opaque C struct names
+                self.rules.append('R15')
             if self.alias:
                 nm = d['name']
                 sig2, n = re.subn(r'\b%s\b' % re.escape(nm), self.alias, sig, count=1)
@@ -674,6 +677,35 @@ class FunctionExtractor:
             for c in n['inner'][1:]:
                 self.walk(c)
             return
+        if t.get('kind') == 'DeclRefExpr' and t.get('referencedDecl', {}).get('name') in ('to_Ostream', 'to_Istream'):
+            # R15: to_Ostream(F) / to_Istream(F) build a stream adapter object around a FILE* or a C++ stream (two overloads, returned by
+            # value and bound to a base-class reference).  In C: one declared-only function per overload returning the adapter's address.
+            ft = t.get('type', {}).get('qualType', '')
+            flavour = 'FILE' if 'FILE' in ft else ('std' if 'stream' in ft else None)
+            if flavour is None:
+                raise ExtractionError('unknown overload of %s: %s' % (t['referencedDecl']['name'], ft))
+            b = _off(t['range']['begin'])
+            e = _end(t['range']['end'])
+            self.ed.replace(b, e, 'verif_%s_%s' % (t['referencedDecl']['name'], flavour))
+            self.rules.append('R15')
+            for c in n['inner'][1:]:
+                self.walk(c)
+            return
+        dflt = [i for i, c in enumerate(n['inner'][1:]) if c.get('kind') == 'CXXDefaultArgExpr']
+        if dflt:
+            # R13b: the call omits trailing arguments that have defaults: write the callee's default expressions out (C has none)
+            if t.get('kind') != 'DeclRefExpr' or t.get('referencedDecl', {}).get('kind') != 'FunctionDecl':
+                raise ExtractionError('default argument in a call whose callee is not a plain function in ' + self.qual)
+            texts = [default_arg_text(self.cpp_rel, t['referencedDecl']['name'], i) for i in dflt]
+            e = _end(n['range']['end'])
+            if self.src[e - 1] != ')':
+                raise ExtractionError('call does not end with )')
+            self.ed.insert(e - 1, (', ' if dflt[0] > 0 else '') + ', '.join(texts))
+            self.rules.append('R13b')
+            for c in n['inner']:
+                if c.get('kind') != 'CXXDefaultArgExpr':
+                    self.walk(c)
+            return
         for c in n['inner']:
             self.walk(c)
 
@@ -851,6 +883,21 @@ def extract_cxx_constants():
     if len(out) < 2:
         raise ExtractionError('numeric_functions.h constants not found')
     return '\n'.join(out) + '\n'
+
+
+def default_arg_text(cpp_rel, callee, index):
+    """source text of the default value of parameter `index` of `callee`, which must be defined in the same file (literals only)"""
+    fx = FunctionExtractor(cpp_rel, callee)
+    fx.src = open(fx.cpp, 'rb').read().decode('latin-1')
+    d = fx.find_decl()
+    params = [c for c in d['inner'] if c.get('kind') == 'ParmVarDecl']
+    if index >= len(params) or not params[index].get('init'):
+        raise ExtractionError('%s: parameter %d has no default value' % (callee, index))
+    ex = [c for c in params[index].get('inner', []) if 'range' in c]
+    txt = fx.src[_off(ex[-1]['range']['begin']):_end(ex[-1]['range']['end'])].strip()
+    if not re.match(r'^(0x[0-9a-fA-F]+|\d+|true|false|NULL|nullptr)$', txt):
+        raise ExtractionError('%s: default value %r is not a literal' % (callee, txt))
+    return '0' if txt == 'nullptr' else txt
 
 
 def extract_plain_struct(cpp_rel, name):
